@@ -700,6 +700,11 @@ func replay(file string) {
 			fmt.Printf("block %d: implementation stopped: %s\n", o.Number, o.Crashed)
 		} else {
 			fmt.Printf("block %d: supply %s\n", o.Number, o.Obs.Supply)
+			if os.Getenv("C07_TRACE") != "" {
+				vb, _ := json.Marshal(o.Obs)
+				tb, _ := json.Marshal(o.Txs)
+				fmt.Printf("   txs %s\n   obs %s\n", tb, vb)
+			}
 		}
 	}
 	bad := false
